@@ -21,18 +21,17 @@ import asyncio
 
 import z3
 
-from engine import symex, codec, c02env, c10env
-from engine.codec import SBytes, SWord
+from engine import symex, codec, c10env
+from engine.codec import SWord
 from engine.vloop import VLoop
 from engine.c02env import le_value, v_eq, v_ugt, terms, cut
 from engine.c10env import (Observer, TicketMap, ticket_source, kind_of, le, frame, peer_init, pierce_firewall,
                            peer_place_in_queue_reply, distributed_branch_level, server_get_user_status,
-                           server_connect_to_peer, server_cannot_connect, obfuscate, text_terms)
+                           server_connect_to_peer, server_cannot_connect, obfuscate)
 
 import aioslsk.protocol.messages as M
 import aioslsk.protocol.obfuscation as O
 from aioslsk.events import EventBus
-from aioslsk.exceptions import ConnectionWriteError
 from aioslsk.network.connection import (Connection, DataConnection, ServerConnection, PeerConnection, ListeningConnection,
                                         PeerConnectionState, ConnectionState, CloseReason)
 from aioslsk.network.network import Network, PeerConnectMode
@@ -146,7 +145,9 @@ class Run:
             if key in self._reg_seen:
                 continue
             self._reg_seen.add(key)
-            self.W.obs.violations.append(('registry_exact_at_quiescence', [kind_of(conn) if conn is not None else '-', what, why],
+            last = self.W.obs.last(conn) if conn is not None else None
+            self.W.obs.violations.append(('registry_exact_at_quiescence',
+                                          [kind_of(conn) if conn is not None else '-', what, why, last.name if last is not None else 'UNREPORTED'],
                                           {'t': self.loop.time(), 'state': conn.state.name if conn is not None else None,
                                            'reports': [s.name for s in self.W.obs.states(conn)] if conn is not None else None}))
 
@@ -476,7 +477,7 @@ def h_incoming(c, port, first, tail='none', inject='none', n_any=0, slow='none')
             if len(W.tickets) != n_pending or len(net._expected_connection_futures) != n_pending:
                 raise symex.HarnessError('pending indirect attempts were not set up')
             # ---- the first frame ------------------------------------------------------------------------------
-            typ, ref_valid, matches, plain, events = None, None, [], None, []
+            typ, ref_valid, matches, plain = None, None, [], None
             if first.startswith('init_'):
                 username = g.text('init.username', 2)
                 if first == 'init_anytyp':
@@ -580,8 +581,6 @@ def h_incoming(c, port, first, tail='none', inject='none', n_any=0, slow='none')
                             sig=sig[:3] + [j], info={'attempt': j, 'done': done})
                     if ok:
                         c.reach('pierce_completed_attempt')
-                if typ is None and not established:
-                    return
             R.script.append(judge)
             if typ is not None and first in FIRST_VALID:
                 add_tail(R, c, g, W, lambda: wire, typ, obf_after, tail)
@@ -713,7 +712,7 @@ def h_server(c, connect='ok', end='eof', second='ok', inject='none', slow='none'
                 R.inject('send', lambda: (begun(), loop.spawn(S.send_message(injmsg), name='inj-send')))
             elif inject != 'none':
                 raise symex.HarnessError(inject)
-            init = loop.spawn(net.initialize(), name='initialize')
+            loop.spawn(net.initialize(), name='initialize')
             frames = [server_get_user_status(g.text(f's{i}.username', 2), g.word(f's{i}.status', 32), terms(g.raw(f's{i}.priv', 1))[0])
                       for i in (1, 2)]
             pre = terms(g.raw('cut.len', 4))
